@@ -113,15 +113,17 @@ def run(chk, prog):
             aw = awaited(po, s_[0])
             ok = False
             if aw and aw["result"] is not None:
-                # the re-read must not be reachable from the Err edge
-                tr = [c for c in po.calls if re.search(r"Try::branch$", c.path or "")]
-                for t in tr:
-                    for (sb, targets, other) in discr_branch(po, t.dest[0]):
-                        brk = targets.get(1, other if 0 in targets else None)
-                        cont = targets.get(0, other if 1 in targets else None)
-                        if brk is not None and cont is not None and r_[0].bb in po.reach_from([cont]) and r_[0].bb not in po.reach_from([brk]) \
-                                and po.dominates(s_[0].bb, t.bb):
-                            ok = True
+                # the re-read must be reachable only from the Ok side of set_rules' result, whatever spelling tests it (`?`, match, if let)
+                from ..flow import option_tests, flow_forward as ff_
+                derived = set(ff_(po, [aw["result"]], [r"Try::branch$", r"Result::<T, E>::map_err$", r"Result::<T, E>::(as_ref|as_mut)$"])[0])
+                if aw.get("poll") is not None and aw["poll"].dest:
+                    derived.add(aw["poll"].dest[0])       # `match fut.await { .. }` switches on the Ready payload in place
+                for o in option_tests(po, derived):
+                    if o["kind"] not in ("Result", "Flow", "?"):
+                        continue
+                    brk, cont = o["pos"][1], o["neg"][1]
+                    if r_[0].bb in po.reach_from([cont]) and r_[0].bb not in po.reach_from([brk]) and po.dominates(s_[0].bb, o["pos"][0]):
+                        ok = True
         chk.instance("post-rules", "%s:%s" % (po.file, po.line), "post_rules answers with the new list only when set_rules succeeded", ok)
         if not ok:
             chk.finding("post-rules", po.key, "reply", "", "%s:%s" % (po.file, po.line),
